@@ -122,6 +122,28 @@ def judge(ctx, sess, proc, rng, ninputs, emit=True):
             if emit:
                 ctx.violation(sig, case)
             return sig
+    if observed and ctx.params.get("openmp_every") and ctx.stat_count("par.compile_accepted") % int(ctx.params["openmp_every"]) == 0:
+        # corroboration by execution: the OpenMP build (8 threads, several runs) must leave every
+        # buffer as the sequential semantics prescribes; a difference is a witness of a race (or of a
+        # miscompiled parallel loop), agreement proves nothing and is only counted
+        from ..ccheck import check_c
+
+        for rep in range(3):
+            try:
+                r = check_c(proc, rng, ctx.scratch / f"omp{ctx.stat_count('par.compile_accepted')}_{rep}", ninputs=3, openmp=True, sanitize=False, only_exact=True, run_env={"OMP_NUM_THREADS": "8", "OMP_DYNAMIC": "false"})
+            except CaseTimeout:
+                raise
+            except Exception:
+                ctx.stat("par.omp_harness_error")
+                break
+            ctx.stat("par.omp_runs")
+            ctx.stat("par.omp_status." + str(r.status))
+            if r.status == "mismatch":
+                sig = {"prop": "C09", "monitor": "openmp-run", "kind": "differs_from_sequential_semantics"}
+                ctx.violation(sig, {"text": sess.text, "root": sess.root_name, "steps": list(sess.steps), "input": (r.specs[r.bad_input].to_json() if r.specs and r.bad_input is not None else None), "diffs": r.diffs, "proc": sstr(proc, 3000)})
+                return sig
+            if r.status != "ok":
+                break
     if observed:
         ctx.distinct(jhash([irutil.fingerprint(ir, alpha=True)]), nontrivial=True)
         if ctx._nsamples < 2:
@@ -133,7 +155,7 @@ def judge(ctx, sess, proc, rng, ninputs, emit=True):
 
 def plan(tier, seed):
     quick = tier == "quick"
-    return {"nshards": 16, "params": {"soft_s": 1500 if quick else 5400, "nprograms": 40 if quick else 160, "ninputs": 4 if quick else 8}, "hard_timeout_s": 2700 if quick else 9000}
+    return {"nshards": 16, "params": {"soft_s": 1500 if quick else 5400, "nprograms": 40 if quick else 160, "ninputs": 4 if quick else 8, "openmp_every": 4 if quick else 3}, "hard_timeout_s": 2700 if quick else 9000}
 
 
 def shard(ctx):
